@@ -197,6 +197,7 @@ class Lexer(object):
         self.valid_prev_token = None
         self.cur_token = None
         self.cur_token_real = None
+        self.real_prev_token = None
         # whether a line terminator (also one inside a multi-line comment)
         # was seen since the last real token, and whether one precedes
         # the current real token; comments do not hide it (ES5 7.4, 7.9)
@@ -324,7 +325,7 @@ class Lexer(object):
                 self.token_stack[-1][0] is None or (
                     # if the token on the stack is the same, the
                     # following was done already, so skip it
-                    self.token_stack[-1][0] is self.prev_token or
+                    self.token_stack[-1][0] is self.real_prev_token or
                     self.token_stack[-1][0].type in TOKENS_THAT_IMPLY_DIVISON
                 )
             )
@@ -342,7 +343,14 @@ class Lexer(object):
             return self._create_semi_token(token)
 
     def _set_tokens(self, new_token):
-        self.token_stack[-1][0] = self.prev_token = self.cur_token
+        self.prev_token = self.cur_token
+        if (new_token is None or
+                new_token.type not in DIVISION_SYNTAX_MARKERS):
+            # the parenthesis frame remembers the real token that came
+            # before the current real token; comments and line
+            # terminators in between do not count (ES5 7.4)
+            self.real_prev_token = self.cur_token_real
+            self.token_stack[-1][0] = self.real_prev_token
         if (self.cur_token and
                 self.cur_token.type not in DIVISION_SYNTAX_MARKERS):
             self.valid_prev_token = self.cur_token
